@@ -312,7 +312,12 @@ class Parser:
         if self.at(')'):
             return res
         while True:
-            f = self.ident(); self.eat('=>')
+            f = self.ident()
+            if self.at('('):
+                # conversion on the formal side:  type_mark(formal) => actual
+                self.next(); inner = self.ident(); self.eat(')')
+                f = ('conv', f, inner)
+            self.eat('=>')
             if self.at('open'):
                 self.next(); a = ('open',)
             else:
